@@ -27,6 +27,9 @@ type C11Rule struct {
 type C11Call struct {
 	Call gx.Call `json:"call"`
 	Flag bool    `json:"flag"`
+	// Mgmt is a management step performed before the call: "" | "remove-all" (RemoveRules
+	// of every rule: the set is empty but not "cleared") | "restore" (incremental re-add)
+	Mgmt string `json:"mgmt,omitempty"`
 }
 
 type C11Case struct {
@@ -127,7 +130,11 @@ func init() {
 					method = []string{"ExecuteConcurrent", "ExecuteMixModel", "ExecuteInverseMixModel", "ExecuteDAGModel", "ExecuteNConcurrentMConcurrent"}[uni(t, fmt.Sprintf("bigmethod%d", k), 0, 4)]
 				}
 				call := c11GenCall(t, fmt.Sprintf("c%d_", k), method, mrules)
-				c.Calls = append(c.Calls, C11Call{Call: call, Flag: rapid.Bool().Draw(t, fmt.Sprintf("flag%d", k))})
+				mg := ""
+				if k > 0 && !big && pct(t, fmt.Sprintf("mgmt%d", k), 22) {
+					mg = []string{"remove-all", "remove-all", "restore"}[uni(t, fmt.Sprintf("mgmtkind%d", k), 0, 2)]
+				}
+				c.Calls = append(c.Calls, C11Call{Call: call, Flag: rapid.Bool().Draw(t, fmt.Sprintf("flag%d", k)), Mgmt: mg})
 			}
 			return c
 		},
@@ -216,7 +223,35 @@ func checkC11(ci interface{}, x *Ctx) {
 		x.Class("many-rules")
 	}
 	returnedBefore := map[string]bool{}
+	allRules := mrules
 	for ci, cc := range c.Calls {
+		switch cc.Mgmt {
+		case "remove-all":
+			var e error
+			if tg.pool != nil {
+				e = tg.pool.RemoveRules(ruleNames(allRules))
+			} else {
+				e = tg.rb.RemoveRules(ruleNames(allRules))
+			}
+			if e != nil {
+				x.Violation("mgmt", "RemoveRules failed: %v", e)
+				return
+			}
+			mrules = nil
+			x.Class("call-on-emptied-rule-set")
+		case "restore":
+			var e error
+			if tg.pool != nil {
+				e = tg.pool.UpdatePooledRulesIncremental(text.String())
+			} else {
+				e = tg.rb.BuildRuleWithIncremental(text.String())
+			}
+			if e != nil {
+				x.Violation("mgmt", "incremental re-add failed: %v", e)
+				return
+			}
+			mrules = allRules
+		}
 		flags.On = cc.Flag
 		env.log.Reset()
 		env.tag.StopTag = false
